@@ -13,6 +13,7 @@
 -/
 import TypedpyModel.Lemmas.DefineWorld
 import TypedpyModel.Lemmas.DefineBridge
+import TypedpyModel.Lemmas.DeriveTotal
 namespace Typedpy.C14
 open Typedpy
 
@@ -430,6 +431,71 @@ theorem sealed_base_rejected (O : Oracles) {w : World} (src : ClassSrc) {b s : S
     rw [hsealed] at this
     cases this
 
+theorem c14_noSealed_add {w : World} {c d : ClassDef} (hc : ClassOk w c) (h : NoSealedAncestor w c) :
+    NoSealedAncestor (w.add d) c := by
+  intro a ha
+  rcases hc.closed a (List.mem_of_mem_tail ha) with ⟨ad, had, _⟩
+  rw [sealedCls_add (by rw [had]; rfl)]
+  exact h a ha
+
+theorem c14_noSealed_init (bc bn : Bool) :
+    ∀ n c, (initWorld bc bn).find n = some c → NoSealedAncestor (initWorld bc bn) c := by
+  intro n c hc
+  have hm : c ∈ (initWorld bc bn).classes := c12_findCls_mem hc
+  simp only [initWorld, World.init, List.mem_cons, List.not_mem_nil, or_false] at hm
+  intro a ha
+  rcases hm with rfl | rfl | rfl | rfl
+  · simp [World.builtin] at ha
+  all_goals
+    have : a = "Structure" := by simpa [World.builtin] using ha
+    subst this
+    rfl
+
+/-- C14 (sealed classes, every history): in every world reachable by class statements no class has
+    a strict subclass of FinalStructure / ImmutableStructure among its proper ancestors — such a
+    class is never extended, at any depth, through any mix of bases -/
+theorem reachable_no_sealed_ancestor {O : Oracles} {w : World} (h : Reachable O w) :
+    ∀ n c, w.find n = some c → NoSealedAncestor w c := by
+  induction h with
+  | init bc bn => exact c14_noSealed_init bc bn
+  | @step w s c hr hs hf ih =>
+    have hw := reachable_ok hr
+    have hw' := worldOk_step hw hs hf
+    intro n d hd
+    rcases find_add_inv hd with h1 | ⟨_, rfl, _⟩
+    · exact c14_noSealed_add (hw n d h1) (ih n d h1)
+    · -- the new class
+      have hnew : NoSealedAncestor w d := by
+        cases s with
+        | define src => simp only [stepClass] at hs; exact defined_no_sealed_ancestor hs
+        | mixin m =>
+          simp only [stepClass] at hs
+          cases hs
+          intro a ha
+          simp [mixinDef] at ha
+        | derive op source newName =>
+          simp only [stepClass] at hs
+          split at hs
+          · simp only [deriveClass] at hs
+            rcases bindE_eq_ok hs with ⟨src, _, hdd⟩
+            exact defined_no_sealed_ancestor hdd
+          · cases hs
+      intro a ha
+      have hdok := hw' d.name d (find_add_fresh hf)
+      rcases hdok.closed a (List.mem_of_mem_tail ha) with ⟨ad, had, _⟩
+      -- `a` is a proper ancestor, so it already existed
+      have hne : a ≠ d.name := by
+        rcases hdok.head with ⟨t, ht⟩
+        intro he
+        rw [ht] at ha
+        have hnd := hdok.nodup
+        rw [ht] at hnd
+        simp only [List.tail_cons] at ha
+        exact (List.nodup_cons.mp hnd).1 (he ▸ ha)
+      rcases find_add_inv had with h1 | ⟨_, _, h2⟩
+      · rw [sealedCls_add (by rw [h1]; rfl)]
+        exact hnew a ha
+      · exact absurd h2.symm hne
 /-! ### kernel-checked counterexamples (the known findings) and non-vacuity -/
 
 def exO : Oracles := { reMatch := fun _ _ => true }
